@@ -17,6 +17,7 @@ EXPLANATION = (
     "__setitem__, __getitem__, __delitem__, __contains__) keys through _reindex_vars, while every ground path keys on the goal itself (writer/reader "
     "agreement); VarReindex maps a variable to the same fresh index on every occurrence and leaves None alone. Order independence of grounding "
     "itself is not decided."
+    " Added after seed round 6: Q5 every self.ground call under an evidence label passes is_root=True (label read through locals; helper methods are followed)."
 )
 TECHNIQUE = "static analysis: ownership rule (who may construct / hold the table) and writer/reader key agreement"
 LEVEL_TEXT = EXPLANATION
